@@ -131,6 +131,11 @@ def check(repo: Repo) -> Result:
     constructor(repo, res, init)
     error_discipline(repo, res)
     synthesis(repo, res)
+    from rules import c03
+    from rules.common import share
+
+    r5 = res.rule("C10-R5", "CGS <-> SI electromagnetic counterparts convert back to the original numbers: the pairing table is closed under reversal with reciprocal factors and pairs the em_dimensions partners (the absolute Gaussian-SI values are C03-R4)", floor=20)
+    share(res, r5, "C03", lambda t: c03.em_table(repo, t), ["C03-R4"], want=lambda k: not k.endswith(":factor"), min_keys=20)
     return res
 
 
@@ -370,4 +375,5 @@ MUTANTS = [
     Mutant("memo-differs", US, "UnitSystem.__getitem__", "            self.units_map[key] = parse_unyt_expr(units)", "            self.units_map[key] = parse_unyt_expr(str(key))", ("C10-R4",)),
     Mutant("default-system-from-missing-attribute", REG, "_sanitize_unit_system", "        try:\n            unit_system = obj.units.registry.unit_system\n        except AttributeError:\n            unit_system = mks_unit_system", "        registry = getattr(obj, \"registry\", None)\n        unit_system = getattr(registry, \"unit_system\", mks_unit_system)", ("C10-R3",)),
     Mutant("default-system-getattr-chain", REG, "_sanitize_unit_system", "        try:\n            unit_system = obj.units.registry.unit_system\n        except AttributeError:\n            unit_system = mks_unit_system", "        units = getattr(obj, \"units\", None)\n        registry = getattr(units, \"registry\", None)\n        unit_system = getattr(registry, \"unit_system\", mks_unit_system)", (), benign=True),
+    Mutant("em-one-direction-changed", UO, None, '        "statV",\n        1.0e-8 * speed_of_light_cm_per_s,', '        "statV",\n        1.0e8 / speed_of_light_cm_per_s,', ("C10-R5",)),
 ]
